@@ -131,8 +131,7 @@ CONSTANTS HandlerChoices, ScriptChoices
 VARIABLES h, req, script, st, ropts
 rvars == <<h, req, script, st, ropts>>
 O(f, st0, stop) == [fail |-> f, sameErr |-> FALSE, status |-> st0, stopAt |-> stop]
-OptChoices == { NoOpts, O(TRUE, 0, ""), O(FALSE, 201, ""), O(TRUE, 503, ""), O(FALSE, 0, "before#1"), O(FALSE, 0, "before#2"), O(FALSE, 0, "after#2"),
-                O(TRUE, 0, "onError#1"), O(FALSE, 0, "onInput#2"), O(FALSE, 0, "onOutput#1") }
+OptChoices == { NoOpts, O(TRUE, 503, ""), O(FALSE, 201, "before#2"), O(FALSE, 0, "after#1"), O(TRUE, 0, "onError#2"), O(FALSE, 0, "onInput#1"), O(FALSE, 0, "onOutput#2") }
 
 ReqsFor(hd) == LET choices(p) == IF p.in = "ctx" THEN {ABSENT}
                                  ELSE {x.id : x \in {t \in Tokens : t.ty = BaseType(p.type)}} \cup (IF p.in = "path" THEN {} ELSE {ABSENT})
